@@ -22,6 +22,9 @@ ALLOWED_AXIOMS = ('ClassicalDedekindReals.sig_forall_dec', 'FunctionalExtensiona
 def generate(tier, seed):
     rng = Rng(seed * 65537 + 1)
     cases = [fitcase.gen_case(rng, '2d') for _ in range(300 if tier == 'quick' else 6000)]
+    for k, c in enumerate(cases):
+        if k % 2 == 1:       # the Fitter has fitted other sources before (their results are not examined; the judged fit must not depend on them)
+            c['warmup'] = [fitcase.gen_source(rng, len(c['wav']), min_fitted=2) for _ in range(rng.randint(1, 2))]
     # function-level correspondence: fitting_routines.* and Source.get_log_fluxes called directly on random arrays
     for _ in range(60 if tier == 'quick' else 1200):
         nb, nm = rng.randint(2, 6), rng.randint(1, 5)
@@ -198,7 +201,9 @@ def judge(case, im, mo):
             fail.append('range: A_V %r of %s outside [%r, %r]' % (float(av_i), name, float(lo), float(hi)))
         s_impl = fitcase.objective(bands, ks, lms, av_i, sc_i)
         s_min = fitcase.objective(bands, ks, lms, av_m, sc_m)
-        if s_impl > s_min + F(1e-7) * (1 + s_min):
+        # the excess of S over its minimum is of second order in the rounding error of (A_V, scale) - also on a bound, where the
+        # scale is re-optimised - so it stays far below 1e-11 for well-conditioned regressions
+        if s_impl > s_min + F(1e-11 if cond < 1e4 else 1e-7) * (1 + s_min):
             fail.append('optimum: (A_V, scale) of %s gives S=%r, the constrained minimum is %r' % (name, float(s_impl), float(s_min)))
         ptot_i, pinf_i, margin_i = fitcase.penalties(bands, ks, lms, av_i, sc_i)
         if not (margin_i is not None and margin_i < Fraction(1, 10 ** 8)):
